@@ -97,6 +97,20 @@ Theorem diagonal_ctor_implies_broadcast : forall dsh spec leaves r,
   diag_ctor true dsh spec leaves = Some r -> diag_ctor false dsh spec leaves = Some r.
 Proof. exact diag_ctor_strict_broadcast_l. Qed.
 Print Assumptions diagonal_ctor_implies_broadcast.
+(* QU rotations (and their lazy transposes) cast cos / sin (2 * angles) to the dtype of the data they multiply when it
+   is inexact (`rot_ty`): for such data neither what mv returns nor the guard depends on the dtype of the ANGLES (only
+   on their shape) - float64 pointing of a float32 map is inside the property; integer data are still widened by the
+   factors (rotation_widens_integer_data below) *)
+Theorem rotation_angle_dtype_irrelevant : forall (x64 : bool) (p p' : pinfo) (s : struct),
+  pi_shape p = pi_shape p' -> forallb sd_inexact (flatten s) = true ->
+  rot_eval x64 p s = rot_eval x64 p' s /\ rot_ok x64 p s = rot_ok x64 p' s.
+Proof. exact rot_angle_ty_irrelevant. Qed.
+Print Assumptions rotation_angle_dtype_irrelevant.
+(* on inexact Q / U leaves the guard of a rotation is: the angles broadcast INTO the leaf, the dtype exists in the mode *)
+Theorem rotation_guard_inexact : forall (x64 : bool) (p : pinfo) (q : sds), sd_inexact q = true ->
+  rot_ok x64 p (Node (KStokes 2) [Leaf q; Leaf q]) = shape_absorbs (pi_shape p) q && sd_avail x64 q.
+Proof. exact rot_ok_inexact. Qed.
+Print Assumptions rotation_guard_inexact.
 Theorem xeval_is_abstract_evaluation : forall (K : Type) (x64 : bool) (info : infos) (e : op K) s,
   xeval x64 info e s = seval x64 (xeval x64 info) e s.
 Proof. exact xeval_seval. Qed.
@@ -188,6 +202,30 @@ Example params_not_wider_needed_dtype :
   let info := [(1%N, mkPinfo f64 [] [])] in
   wfo e = true /\ dtypes_available true e = true /\ params_not_wider true info e = false /\
   xeval true info e (in_struct e) = Some v5d /\ out_struct e = v5.
+Proof. vm_compute. repeat split. Qed.
+(* float64 angles on float32 Stokes data (64-bit mode): the factors are cast to float32, the rotation and its lazy
+   transpose are inside the guard and return what they declare; the same holds whatever the angles' dtype *)
+Definition qu (n d : nat) : struct := Node (KStokes 2) [Leaf (mkSds [n] d); Leaf (mkSds [n] d)].
+Example rotation_wide_angles_honest :
+  let r : op Z := Prim 1%N CQURotation (qu 3 0) (qu 3 0) PNone in
+  let e : op Z := Comp 3%N [Wrap 2%N WQURotT r; r] in
+  let info := [(1%N, mkPinfo f64 [3] [])] in
+  wfo e = true /\ ctor_checked true info e = true /\ params_not_wider true info e = true /\
+  dtypes_available true e = true /\ xeval true info e (in_struct e) = Some (out_struct e) /\ out_struct e = qu 3 0.
+Proof. vm_compute. repeat split. Qed.
+(* float32 angles on int32 Stokes data: no cast, mv returns float32 Q / U while int32 is declared *)
+Example rotation_widens_integer_data :
+  let e : op Z := Prim 1%N CQURotation (qu 3 2) (qu 3 2) PNone in
+  let info := [(1%N, mkPinfo f32 [3] [])] in
+  wfo e = true /\ dtypes_available false e = true /\ params_not_wider false info e = false /\
+  xeval false info e (in_struct e) = Some (qu 3 0) /\ out_struct e = qu 3 2.
+Proof. vm_compute. repeat split. Qed.
+(* angles with an axis the data do not have (one angle per detector AND sample on a per-sample map): still outside *)
+Example rotation_wide_angle_shape :
+  let e : op Z := Prim 1%N CQURotation (qu 3 0) (qu 3 0) PNone in
+  let info := [(1%N, mkPinfo f32 [2; 3] [])] in
+  wfo e = true /\ dtypes_available false e = true /\ params_not_wider false info e = false /\
+  xeval false info e (in_struct e) = Some (Node (KStokes 2) [Leaf (mkSds [2; 3] 0); Leaf (mkSds [2; 3] 0)]) /\ out_struct e = qu 3 0.
 Proof. vm_compute. repeat split. Qed.
 (* mixed-precision output {float16[3], float32[3]} (an index operator X: [0, 2, 2]) scaled by a scalar.
    3 * X with the Python int 3 (weak int32): every leaf keeps its dtype, the hypotheses of scalar_product_honest hold;
